@@ -344,6 +344,24 @@ impl Profile {
                 force_opts: vec![("--sst-target-file-size", "4096"), ("--sst-minimum-file-size", "2048"), ("--gc-policy", "versions = 6")],
                 ..base
             },
+            // Not a generator of its own: every history is a stored history of a repaired defect
+            // (or of /verif/corpus) with a few seeded mutations, see `corpus_mutant`.
+            "corpus" => Profile { name: "corpus", ..base },
+            // Ingest after ingest with hardly a voluntary compaction turn, so that the stall
+            // threshold alone sinks tables one level at a time until all sixteen levels hold one,
+            // then a long compaction turn that has to merge through the tower.  Small target
+            // files and long values make multi-table outputs (siblings sharing a boundary key).
+            "tree-tower" => Profile {
+                name: "tree-tower",
+                mode: Mode::Tree,
+                min_ops: 24,
+                max_ops: 64,
+                scans: true,
+                verify: true,
+                reopen: false,
+                force_opts: vec![("--sst-target-file-size", "4096"), ("--sst-minimum-file-size", "4096")],
+                ..base
+            },
             "kvs-stall" => Profile {
                 name: "kvs-stall",
                 adversarial_thresholds: true,
@@ -668,6 +686,11 @@ fn big_batch(first_big: usize, keys: &[Vec<u8>], slack: u64) -> Op {
 /// Generate one history from a seed and a profile.
 pub fn generate(seed: u64, p: &Profile) -> History {
     let mut rng = Rng::new(crate::rng::mix(&[seed, crate::rng::str_seed(p.name)]));
+    if p.name == "corpus" {
+        if let Some(h) = corpus_mutant(seed, &mut rng) {
+            return h;
+        }
+    }
     let mut keys = key_universe(&mut rng);
     if p.name == "tree-straddle" {
         keys.retain(|k| k.len() < 64);
@@ -703,6 +726,13 @@ pub fn generate(seed: u64, p: &Profile) -> History {
         w[1] = 0;
         w[2] = rng.range(10, 40) as u32;
         w[5] = 0;
+    }
+    if p.name == "tree-tower" {
+        w[3] = rng.range(0, 2) as u32; // get
+        w[4] = rng.range(0, 1) as u32; // scan
+        w[6] = rng.range(0, 3) as u32; // compact
+        w[7] = rng.range(0, 1) as u32; // verify
+        w[2] = 40;
     }
     let forced_small = p.force_opts.iter().any(|(k, v)| *k == "--sst-target-file-size" && *v == "4096");
     let big_values = forced_small || (small_files && rng.chance(2, 3));
@@ -827,6 +857,10 @@ pub fn generate(seed: u64, p: &Profile) -> History {
         }
         ops.push(op);
     }
+    if p.name == "tree-tower" {
+        ops.push(Op::CompactMany { n: 48 });
+        ops.push(Op::Get { k: 0 });
+    }
     let mut keys = keys;
     if p.name == "kvs-big" {
         let first_big = keys.len();
@@ -845,4 +879,221 @@ pub fn generate(seed: u64, p: &Profile) -> History {
         keys: keys.into_iter().map(HexKey).collect(),
         ops,
     }
+}
+
+///////////////////////////////////////////// corpus ///////////////////////////////////////////////
+
+/// Stored histories used as starting points: the replays of repaired defects (`*-fixed-*.json`
+/// under the first directory) and everything under the second.  Sorted by file name, so the corpus
+/// is the same list on every run.  `STORESIM_CORPUS` = "dir1:dir2" overrides the directories,
+/// `STORESIM_CORPUS_EXCLUDE` = substring leaves files out (sensitivity tests).
+pub fn corpus() -> &'static Vec<(String, History)> {
+    static CORPUS: std::sync::OnceLock<Vec<(String, History)>> = std::sync::OnceLock::new();
+    CORPUS.get_or_init(|| {
+        let dirs = std::env::var("STORESIM_CORPUS").unwrap_or_else(|_| "/verif/replays:/verif/corpus".to_string());
+        let exclude = std::env::var("STORESIM_CORPUS_EXCLUDE").ok();
+        let mut out = Vec::new();
+        for (di, dir) in dirs.split(':').enumerate() {
+            let mut names: Vec<std::path::PathBuf> = match std::fs::read_dir(dir) {
+                Ok(rd) => rd.flatten().map(|e| e.path()).collect(),
+                Err(_) => continue,
+            };
+            names.sort();
+            for path in names {
+                let name = path.file_name().map(|n| n.to_string_lossy().to_string()).unwrap_or_default();
+                if !name.ends_with(".json") || (di == 0 && !name.contains("-fixed-")) {
+                    continue;
+                }
+                if exclude.as_ref().map(|x| name.contains(x.as_str())).unwrap_or(false) {
+                    continue;
+                }
+                let Ok(text) = std::fs::read_to_string(&path) else { continue };
+                let Ok(doc) = serde_json::from_str::<serde_json::Value>(&text) else { continue };
+                let Some(hv) = doc.get("history") else { continue };
+                if let Ok(h) = serde_json::from_value::<History>(hv.clone()) {
+                    if !h.ops.is_empty() && !h.keys.is_empty() {
+                        out.push((name, h));
+                    }
+                }
+            }
+        }
+        out
+    })
+}
+
+/// One stored history with 1..=6 seeded mutations: drop / duplicate / swap operations, change the
+/// key or the value length of an entry, insert an operation of the history's own kind, or cut the
+/// tail and end on a long compaction turn.  Everything is drawn from `rng`.
+fn corpus_mutant(seed: u64, rng: &mut Rng) -> Option<History> {
+    let all = corpus();
+    if all.is_empty() {
+        return None;
+    }
+    let (_, base) = &all[rng.usize_below(all.len())];
+    let mut h = base.clone();
+    h.seed = seed;
+    let keys: Vec<Vec<u8>> = h.keys.iter().map(|k| k.0.clone()).collect();
+    let nk = keys.len();
+    let tree = h.mode == Mode::Tree;
+    let has = |h: &History, f: fn(&Op) -> bool| h.ops.iter().any(f);
+    let had_reopen = has(&h, |o| matches!(o, Op::Reopen));
+    let had_verify = has(&h, |o| matches!(o, Op::Verify));
+    let had_scan = has(&h, |o| matches!(o, Op::Scan { .. }));
+    let big = h.ops.iter().any(|o| match o {
+        Op::Put { vlen, .. } => *vlen >= 300,
+        Op::Batch { ents } | Op::Ingest { ents } => ents.iter().any(|e| e.1.map(|v| v >= 300).unwrap_or(false)),
+        _ => false,
+    });
+    let gen_ents = |rng: &mut Rng| -> Vec<Ent> {
+        let n = rng.range(1, 5.min(nk as u64)) as usize;
+        let mut ks: Vec<usize> = Vec::new();
+        while ks.len() < n {
+            let k = rng.usize_below(nk);
+            if !ks.contains(&k) {
+                ks.push(k);
+            }
+        }
+        ks.into_iter().map(|k| if rng.chance(1, 5) { (k, None) } else { (k, Some(gen_vlen(rng, big))) }).collect()
+    };
+    let n_mut = rng.range(1, 6);
+    for _ in 0..n_mut {
+        if h.ops.is_empty() {
+            break;
+        }
+        let i = rng.usize_below(h.ops.len());
+        match rng.below(9) {
+            0 => {
+                h.ops.remove(i);
+            }
+            1 => {
+                let op = h.ops[i].clone();
+                h.ops.insert(i + 1, op);
+            }
+            2 => {
+                if i + 1 < h.ops.len() {
+                    h.ops.swap(i, i + 1);
+                }
+            }
+            3 | 4 => {
+                // change one entry of a write near i
+                let j = (i..h.ops.len()).chain(0..i).find(|j| h.ops[*j].is_client_write());
+                if let Some(j) = j {
+                    let new_k = rng.usize_below(nk);
+                    let new_v = if rng.chance(1, 5) { None } else { Some(gen_vlen(rng, big)) };
+                    let change_key = rng.chance(1, 2);
+                    match &mut h.ops[j] {
+                        Op::Put { k, vlen } => {
+                            if change_key { *k = new_k } else { *vlen = new_v.unwrap_or(0) }
+                        }
+                        Op::Del { k } => *k = new_k,
+                        Op::Batch { ents } | Op::Ingest { ents } => {
+                            let e = rng.usize_below(ents.len());
+                            if change_key {
+                                // an ingested table cannot hold a key twice
+                                if !ents.iter().any(|x| x.0 == new_k) {
+                                    ents[e].0 = new_k;
+                                }
+                            } else {
+                                ents[e].1 = new_v;
+                            }
+                        }
+                        _ => {}
+                    }
+                }
+            }
+            5 | 6 => {
+                let op = match rng.below(8) {
+                    0 | 1 | 2 => {
+                        if tree {
+                            Op::Ingest { ents: gen_ents(rng) }
+                        } else {
+                            match rng.below(3) {
+                                0 => Op::Put { k: rng.usize_below(nk), vlen: gen_vlen(rng, big) },
+                                1 => Op::Del { k: rng.usize_below(nk) },
+                                _ => Op::Batch { ents: gen_ents(rng) },
+                            }
+                        }
+                    }
+                    3 => Op::Compact,
+                    4 => Op::CompactMany { n: *rng.pick(&[3usize, 8, 20, 48]) },
+                    5 => {
+                        if tree { Op::Compact } else { Op::Flush }
+                    }
+                    6 => {
+                        if had_scan {
+                            Op::Scan { lo: gen_bound(rng, &keys), hi: gen_bound(rng, &keys), prog: gen_prog(rng, &keys, 20) }
+                        } else {
+                            Op::Get { k: rng.usize_below(nk) }
+                        }
+                    }
+                    _ => {
+                        if had_reopen && rng.chance(1, 2) {
+                            Op::Reopen
+                        } else if had_verify {
+                            Op::Verify
+                        } else {
+                            Op::Get { k: rng.usize_below(nk) }
+                        }
+                    }
+                };
+                h.ops.insert(i, op);
+            }
+            7 => {
+                let cut = rng.range((h.ops.len() / 2) as u64, h.ops.len() as u64) as usize;
+                h.ops.truncate(cut);
+                h.ops.push(Op::CompactMany { n: 48 });
+                if had_verify {
+                    h.ops.push(Op::Verify);
+                }
+            }
+            _ => {
+                // a burst of small writes to one key followed by a long turn: the shape that
+                // fills level 0 and then sinks a tower
+                let k = rng.usize_below(nk);
+                let n = rng.range(2, 6) as usize;
+                for _ in 0..n {
+                    let op = if tree {
+                        Op::Ingest { ents: vec![(k, Some(8))] }
+                    } else {
+                        Op::Put { k, vlen: 8 }
+                    };
+                    h.ops.insert(i.min(h.ops.len()), op);
+                }
+            }
+        }
+    }
+    // Keep the history well formed: cursor slots, re-ingests.
+    let mut open = [false; 3];
+    let mut out: Vec<Op> = Vec::with_capacity(h.ops.len());
+    for op in h.ops.into_iter() {
+        match &op {
+            Op::Hold { slot, .. } => {
+                if open[*slot] {
+                    continue;
+                }
+                open[*slot] = true;
+            }
+            Op::HoldUse { slot, .. } => {
+                if !open[*slot] {
+                    continue;
+                }
+            }
+            Op::HoldDrop { slot } => {
+                if !open[*slot] {
+                    continue;
+                }
+                open[*slot] = false;
+            }
+            Op::Reopen => open = [false; 3],
+            // positions moved; a re-ingest names an operation index
+            Op::Reingest { .. } => continue,
+            _ => {}
+        }
+        out.push(op);
+    }
+    h.ops = out;
+    if h.ops.is_empty() {
+        return None;
+    }
+    Some(h)
 }
